@@ -22,9 +22,9 @@ class Grammar(qc.QGrammar):
         nsrc = 1 + h[10] % 3
         for s in range(nsrc):
             b, b2 = h[11 + s], h[14 + s % 2]
-            typ = [sc.T_ADD, sc.T_TIMER, sc.T_READ, sc.T_ADD][b % 4]
+            typ = [sc.T_ADD, sc.T_TIMER, sc.T_READ, sc.T_ADD, sc.T_WRITE, sc.T_SIGNAL, sc.T_READ, sc.T_SIGNAL][b % 8]
             tq = [0, 0, 1, 2][(b >> 2) % 4]
-            has_ch = 0 if (b >> 4) % 4 == 0 and typ != sc.T_READ else 1
+            has_ch = 0 if (b >> 4) % 4 == 0 and typ not in (sc.T_READ, sc.T_WRITE) else 1
             active = 2 if (b >> 6) % 4 else 0
             cancel_at = [0, 0, 1, 2, 4][b2 % 5]
             regh = [0, 0, 8, 8 | 16][(h[16] >> (2 * s)) % 4]          # registration handler: none / logging only / cancels the source
@@ -54,8 +54,8 @@ class Grammar(qc.QGrammar):
         if kind == "event":        # keep events arriving across the cancel
             if S["type"] == sc.T_ADD:
                 return P.op(ctx, "merge", a=s, b=1 + b % 5, src=s, thread=ctx)
-            if S["type"] == sc.T_READ:
-                return P.op(ctx, "pwrite", a=s, b=[1, 7, 64, 300][b % 4], src=s, thread=ctx)
+            if S["type"] in (sc.T_READ, sc.T_WRITE, sc.T_SIGNAL):       # peer action: write to the pipe / drain the pipe / raise the signal
+                return P.op(ctx, "pwrite", a=s, b=[1, 7, 64, 300][b % 4] if S["type"] == sc.T_READ else [512, 2048, 4096, 2048][b % 4], src=s, thread=ctx)
             return P.op(ctx, "sleep", a=[30, 120, 300][b % 3])
         if kind == "cancel":
             P.features.add("cancel-from-thread")
@@ -136,8 +136,8 @@ def cancel_verdicts(prog, hist):
             want = S["tq"] + 1 if S["tq"] in (0, 1) else 0
             if tag != want:
                 out.append(Verdict("cancellation handler of source %d ran on queue tag %d, its target queue has tag %d" % (sid, tag, want), dict(kind="cancel-handler-wrong-queue")))
-            if S["type"] == sc.T_READ and int(ev["idx"][p]) == 1:
-                out.append(Verdict("inside the cancellation handler of READ source %d its descriptor was still registered in the library's epoll set" % sid, dict(kind="fd-still-monitored")))
+            if S["type"] in (sc.T_READ, sc.T_WRITE) and int(ev["idx"][p]) == 1:
+                out.append(Verdict("inside the cancellation handler of READ/WRITE source %d its descriptor was still registered in the library's epoll set" % sid, dict(kind="fd-still-monitored")))
         for c, r, where in cancels[:1]:
             after = [s for s in hstarts if s > r]
             allowed = 0 if where in ("handler", "registration-handler", "serial-target-item", "cancelwait") else 1
@@ -164,7 +164,7 @@ def cancel_verdicts(prog, hist):
 class Check(sc.SCheck):
     prop = "C16"
     mc_workers = 3
-    rule = ("Hypothesis recipe -> program with 1-3 sources (DATA_ADD, short-interval TIMER, READ on a pipe) on serial / concurrent / global target queues, with and "
+    rule = ("Hypothesis recipe -> program with 1-3 sources (DATA_ADD, short-interval TIMER, READ on a pipe, WRITE on a 4 kB pipe that the handler fills and peers drain, SIGNAL on SIGUSR1/2 raised by peers) on serial / concurrent / global target queues, with and "
             "without cancellation handler, created active or inactive: dispatch_source_cancel is issued before activation, after activation before any event, from the "
             "event handler (at its 1st/2nd/4th invocation), from the registration handler while events are already pending, from an item on the serial target queue, from items on other queues, from foreign threads while events keep "
             "arriving (merges, peer writes, timer ticks), twice, and as dispatch_source_cancel_and_wait (only where legal: no cancel handler, not from the handler). "
